@@ -136,6 +136,8 @@ def run_cases_for(chk):
 
 def main():
     chk = Check("C03", "other")
+    # who may write the history of a delayed model: the adaptive DDE solvers change it only through DDEHistory.update, unconditionally per accepted step
+    chk.run_frames()
     fb = solver_fallback(chk)
     chk.run_contracts("contracts.c03", fallback={"*": fb})
     for f in fb():
